@@ -277,6 +277,8 @@ impl ServerState {
                         sway_utils::verif::step("W.isEmpty", "");
                         if rx.is_empty() {
                             // finished compilation, notify waiters
+                            #[cfg(fuellabs_sway_verif)]
+                            sway_utils::verif::step("W.notify", "");
                             finished_compilation.notify_waiters();
                         }
                         #[cfg(fuellabs_sway_verif)]
@@ -352,6 +354,18 @@ impl ServerState {
             #[cfg(not(fuellabs_sway_verif))]
             self.finished_compilation.notified().await;
         }
+    }
+
+    /// Verification hook: the scheduling state as seen by the conformance harness
+    /// `(is_compiling, retrigger_compilation, pending requests, last compilation state)`.
+    #[cfg(fuellabs_sway_verif)]
+    pub fn verif_sched_state(&self) -> (bool, bool, usize, String) {
+        (
+            self.is_compiling.load(Ordering::SeqCst),
+            self.retrigger_compilation.load(Ordering::SeqCst),
+            self.cb_rx.len(),
+            format!("{:?}", *self.last_compilation_state.read()),
+        )
     }
 
     pub fn shutdown_server(&self) -> jsonrpc::Result<()> {
